@@ -407,10 +407,9 @@ func (s *socket) MaybeUpgrade(transport transports.Transport) {
 	onError = func(err ...any) {
 		socket_log.Debug("client did not complete upgrade - %v", err[0])
 		cleanup()
-		if transport != nil {
-			transport.Close()
-			transport = nil
-		}
+		// Close is idempotent; the shared variable must not be cleared here: this
+		// listener runs concurrently for "transport closed" and "socket closed"
+		transport.Close()
 	}
 
 	onTransportClose = func(...any) {
